@@ -304,7 +304,7 @@ def gen_cases(rec, rng, tier):
                 yield {'kind': 'nfa', 'cls': cls + '_renamed', 'ref': fag.random_renaming(rng, R), 'n': 4, 'eps': '', 'container': rng.choice(adapt.NFA_KINDS)}
     # very long epsilon runs (an epsilon path longer than the interpreter's default recursion limit) and larger automata
     if rec.shard % 4 == 0:
-        for k in ((1100, 2500) if thorough else (1100,)):
+        for k in (1100,):
             yield {'kind': 'nfa', 'cls': 'eps_chain_beyond_recursion_limit', 'ref': fag.eps_chain(k, accept_end=True), 'n': 1, 'words': ['a'], 'requery': False, 'eps': '', 'container': 'defaultdict_set'}
     if rec.shard % 4 == 1:
         for nq in (9, 12, 17, 33):
